@@ -6,6 +6,7 @@ recomputes what the statement promises. Tolerances are fixed in DESIGN.md sectio
 """
 
 import io
+import os
 
 import numpy as np
 
@@ -160,16 +161,25 @@ def c04_end_of_history(traces, V, fs_writes=None):
     """At the end of a history each path holds the numbers of its LAST writer. Paths whose
     last writer was a job that did not return (it raised after writing) are skipped: a run
     without a returned result promises nothing about its files."""
-    last_tag = {}
-    for _idx, path, tag in fs_writes or []:
-        last_tag[path] = tag
+    writes = list(fs_writes or [])
+
+    def last_writer_tag(doc_path):
+        # the last job that wrote to the documented path or to a sibling whose name starts with the same stem
+        # (a temporary file that is renamed into place counts as a write to the table)
+        d, stem = os.path.dirname(doc_path), os.path.basename(doc_path).rsplit(".", 1)[0]
+        tag = None
+        for _idx, path, tg in writes:
+            if path == doc_path or (os.path.dirname(path) == d and os.path.basename(path).startswith(stem)):
+                tag = tg
+        return tag
+
     last = {}
     for t in traces:
         for rec in t.rounds:
             if rec.get("csv_path") and rec.get("csv_text") is not None:
                 last[rec["csv_path"]] = (rec["csv_text"], t.spec.get("tag"), t.status)
     for path, (txt, tag, status) in sorted(last.items()):
-        if status != "ok" or (fs_writes is not None and last_tag.get(path) != tag):
+        if status != "ok" or (fs_writes is not None and last_writer_tag(path) != tag):
             continue
         try:
             with open(path) as f:
